@@ -131,7 +131,7 @@ def run(prop, tier, seed, results, violations, undecided, infra):
             continue
         violations.append(ob)
     # ---- 4. counterexamples for failing Verus obligations; triage of proof-internal failures
-    need = [o for o in violations if o.get('kind') != 'bounded-harness' and not o.get('counterexample')] + list(undecided)
+    need = [o for o in violations if o.get('kind') != 'bounded-harness' and not o.get('counterexample')] + [o for o in undecided if not o.get('unreached')]
     if (need or infra) and b[0]:
         bad_units = sorted(set(o.get('unit') for o in need if o.get('unit')) | set(
             n for n in units if results.get(n) is not None and results[n].get('infra')))
@@ -146,7 +146,7 @@ def run(prop, tier, seed, results, violations, undecided, infra):
                     o['replay'] = _write_cex(prop, o['id'], hit['harness'], hit['bytes'], 'native random search', hit.get('assertion'),
                                              verifier_output=(o.get('diag') or {}).get('rendered'))
                 # proof-internal failures with a reproduced counterexample are violations
-                for o in list(undecided):
+                for o in [u for u in undecided if not u.get('unreached')]:
                     o['status'] = 'failed'
                     undecided.remove(o)
                     violations.append(o)
@@ -160,7 +160,7 @@ def run(prop, tier, seed, results, violations, undecided, infra):
                         violations.append(o)
     # proof-internal failures without counterexample: undecided only if the unit's Kani harnesses pass
     for o in list(undecided):
-        if o.get('status') == 'failed-proof':
+        if o.get('status') == 'failed-proof' or o.get('unreached'):
             continue
         hs = [h for h, i in REG.HARNESSES.items() if o.get('unit') in i['units'] and i.get('kani', True)]
         hs = hs[:6]
